@@ -29,6 +29,7 @@ class State:
         self.atoms_axiomatised: set = set()
         self.kernel_calls: list = []
         self.obligations: list = []
+        self.denoms: dict = {}
 
 
 ST = State()
@@ -44,6 +45,7 @@ def reset(facts=()):
     ST.atoms_axiomatised = set()
     ST.kernel_calls = []
     ST.obligations = []
+    ST.denoms = {}
     for f in facts:
         assume(f)
 
